@@ -180,6 +180,7 @@ func main() {
 		if a.N == 0 {
 			next = genFrames(r, w, next, a.Tier)
 			next = genCfgFrames(r, w, next, a.Tier)
+			next = genServe(r, w, next, a.Tier)
 			next = genProto(r, w, next, a.Tier)
 			next = genPayload(r, w, next, a.Tier)
 			next = genBig(r, w, next, a.Tier)
@@ -238,10 +239,12 @@ func main() {
 				st.Case(line[len(id):], fixed > 0 && varint > 0, line)
 			case "BIG":
 				runBig(id, f[1:], line, obs, st)
-			case "PAY", "PAYDEC", "PAYR":
+			case "PAY", "PAYDEC", "PAYR", "PAYBATCH":
 				runPayload(id, f[1:], line, obs, st)
 			case "PB", "PBDEC", "UPD", "UPDDEC":
 				runProto(id, f[1:], line, obs, st)
+			case "SERVE":
+				runServe(id, f[1:], line, obs, st)
 			case "CFGFRAME":
 				runCfgFrame(id, f[1:], line, obs, st)
 			case "HDR", "HDRDEC", "WRITE", "FRAME":
@@ -256,6 +259,7 @@ func main() {
 		}
 		obs.Close()
 		st.Notes["entry_size_classes"] = sizeClassNote()
+		st.Notes["serveconn_on_malformed_messagebatch"] = probeMalformedBatch()
 		st.Write(a.Out)
 	}
 }
